@@ -5,7 +5,7 @@
    witnesses of the three repaired findings stay as regression Examples on the pre-fix functions
    (op_import_names_unsorted, frag_module_order_unsorted, gen_client_imports_mutating). *)
 From Coq Require Import List String Ascii Bool Arith Permutation.
-From AC Require Import Base.Strs Base.SortUniq Model.Nondet Proofs.NondetP Proofs.NondetDfs.
+From AC Require Import Base.Strs Base.SortUniq Model.Nondet Proofs.NondetP Proofs.NondetDfs Proofs.NondetFuel.
 Import ListNotations.
 Local Open Scope string_scope.
 
@@ -48,6 +48,18 @@ Theorem C10_fragments_module_complete : forall o fi p ord,
   NoDup ord /\ (forall x, In x (set_diff (fi_defs fi) (fi_excl fi)) -> In x ord).
 Proof. exact frag_module_complete. Qed.
 Print Assumptions C10_fragments_module_complete.
+
+(* the fuel never decides: on well-formed inputs (fragment names distinct, every mixin a defined fragment — what
+   graphql-core's validation guarantees and the tie re-checks on every recorded input) the worklist and the DFS
+   finish within frag_fuel, so the module order exists, has no class twice and holds every requested fragment *)
+Theorem C10_fragments_module_total : forall o fi, wf_finput fi ->
+  exists p ord, frag_module_order o fi = Some (p, ord) /\ NoDup ord /\
+                (forall x, In x (set_diff (fi_defs fi) (fi_excl fi)) -> In x ord).
+Proof.
+  intros o fi W. destruct (frag_module_order_total o fi W) as [p [ord E]].
+  exists p, ord. split; [exact E|]. exact (frag_module_complete o fi p ord E).
+Qed.
+Print Assumptions C10_fragments_module_total.
 
 Theorem C10_generation_order_independent : forall o1 o2 fi fuel queue names processed,
   work fuel o1 fi queue names processed = work fuel o2 fi queue names processed.
